@@ -41,7 +41,9 @@ CONFIGS = {
     'active': dict(cfg=dict(hold=9), world_env={}),
     'attempts1': dict(cfg=dict(hold=9), world_env={'tcp.attempts': 1}),
     'gr': dict(cfg=dict(hold=9, caps='graceful-restart 120;'), world_env={}),
-    'passive': dict(cfg=dict(hold=9, extra='passive true;'), world_env={'bgp.passive': True}),
+    'passive': dict(cfg=dict(hold=9, extra='passive true;'), world_env={'bgp.passive': True}, passive=True),
+    # the neighbor alone is passive (the daemon-wide switch is off): it never opens a connection itself, before or after a session
+    'passiven': dict(cfg=dict(hold=9, extra='passive true;'), world_env={}, passive=True),
     # the peer's OPEN carries Hold Time 0 (RFC 4271 4.2: legal, no timers): nothing but the KEEPALIVE itself
     # stands between OPENCONFIRM and ESTABLISHED
     'hold0': dict(cfg=dict(hold=9), world_env={}, remote_hold=0),
@@ -102,7 +104,7 @@ class Env(edev.Env):
         if name == 'connect-ok' and (not self.multi or self.w.sockets[int(arg)].remote[0] == '127.0.0.2'):
             out.append(f'connect-refused:{arg}')
         s = self.current()
-        passive = self.config_name == 'passive'
+        passive = bool(CONFIGS[self.config_name].get('passive'))
         if s is not None and s.connected and not s.closed:
             out += ['eof', 'rst', 'epipe']
             for m in ('open', 'update', 'keepalive', 'notification', 'refresh', 'badtype'):
@@ -227,6 +229,10 @@ def run_one(args):
     cfg = config_text(config_name)
     summary, tr = edev.run(Env, cfg, choices, steps, env_kwargs=dict(config_name=config_name, hold=conf.get('remote_hold', 9), script=SCRIPT), world_env=conf['world_env'])
     viols = monitors(summary)
+    if conf.get('passive'):
+        out = [s for s in summary['sockets'] if s['kind'] == 'out']
+        if out:
+            viols.append(('passive-neighbor-connects-out', f'the neighbor is configured passive but ExaBGP opened connection {out[0]["index"]} to it itself'))
     if conf.get('second'):
         viols += bystander(summary, choices)
     outcome = (tuple(p['fsm'] for p in summary['peers']), tuple(len(s['tx']) for s in summary['sockets']), tuple(s['closed'] for s in summary['sockets']))
@@ -363,10 +369,10 @@ def run(ctx: core.Ctx) -> None:
     if os.environ.get('C05_BOUND'):
         plan = [(c, int(os.environ['C05_BOUND'])) for c in CONFIGS]
     elif ctx.tier == 'quick':
-        plan = [('active', 2), ('attempts1', 1), ('gr', 1), ('passive', 1), ('hold0', 1), ('hold0local', 1), ('two', 1), ('mirror', 1)]
+        plan = [('active', 2), ('attempts1', 1), ('gr', 1), ('passive', 1), ('passiven', 2), ('hold0', 1), ('hold0local', 1), ('two', 1), ('mirror', 1)]
     else:
         # every configuration to 2 deviations first, then a third (reduced menu) on the active one
-        plan = [('active', 2), ('attempts1', 2), ('gr', 2), ('passive', 2), ('hold0', 2), ('hold0local', 2), ('two', 2), ('mirror', 2), ('active', 3)]
+        plan = [('active', 2), ('attempts1', 2), ('gr', 2), ('passive', 2), ('passiven', 2), ('hold0', 2), ('hold0local', 2), ('two', 2), ('mirror', 2), ('active', 3)]
     if os.environ.get('C05_ONLY'):
         plan = [(c, b) for c, b in plan if c in os.environ['C05_ONLY'].split(',')]
         ctx.cap(f'restricted to configurations {os.environ["C05_ONLY"]} by C05_ONLY')
